@@ -277,6 +277,22 @@ def fixed_programs():
     out.append(head + [["NewRecord", ["d", "0"], "Entity", ["S", "ex:e"], []],
                        ["ElemMethod", ["r", ["d", "0"], "0"], "wasGeneratedBy", [["activity", ["str", "ex:a"]], ["time", ts]], []],
                        ["AddAttrs", ["r", ["d", "0"], "1"], [[tq, ts]]]])
+    # a call that re-supplies the value a formal attribute already holds (a no-op for that pair) and goes on: the pairs
+    # after it are handled as if it had not been there — stored, refused, or no-ops in their own right
+    for kind, a, v1, v2 in cases:
+        q = ["Q", "prov", PROVU, a]
+        other = {"entity": "activity", "activity": "entity", "time": "entity", "startTime": "endTime", "endTime": "startTime",
+                 "usedEntity": "generatedEntity", "plan": "agent"}[a]
+        qo = ["Q", "prov", PROVU, other]
+        vo = t2 if other.endswith("ime") else ["str", "ex:o1"]
+        vo2 = ["time", "2012", "3", "31", "9", "23", "0", "0", "none"] if other.endswith("ime") else ["str", "ex:o2"]
+        for same in (v1, (["str", "2012-03-31T09:21:00"] if v1[0] == "time" else v1)):
+            for shape in ("pairs", "dict"):
+                head = [["NewDoc"], ["AddNs", ["d", "0"], "ex", EXU],
+                        ["NewRecord", ["d", "0"], kind, ["S", "ex:r"], [[q, v1]]]]
+                out.append(head + [["AddAttrs", ["r", ["d", "0"], "0"], [[q, same], [["S", "ex:k"], ["int", "1"]], [qo, vo], [["S", "ex:k2"], ["str", "z"]]]],
+                                   ["AddAttrs", ["r", ["d", "0"], "0"], [[["S", "ex:k"], ["int", "2"]], [q, same], [qo, vo2], [["S", "ex:k3"], ["int", "3"]]]],
+                                   ["AddAttrs", ["r", ["d", "0"], "0"], [[q, same], [qo, vo], [q, v2], [["S", "ex:k4"], ["int", "4"]]]]])
     # the single-value guard on times that mix zones: same instant in two zones (no-op), same clock reading in two zones
     # or with / without a zone (refused)
     zt = [["time", "2012", "3", "31", "12", "0", "0", "0", "none"], ["time", "2012", "3", "31", "12", "0", "0", "0", "0"],
